@@ -213,4 +213,4 @@ LEVEL_TEXT = ("Decides on all CFG paths: ownership is released only after the la
 LEVEL_NOTE = "Trusted: rustc MIR; FIELD_EXCEPTIONS table (one reason per row). Not decided: interleavings of create/open/drop."
 TECHNIQUE = "static analysis: no-error-after-effect path rule, only-under-arm rules, constant-argument rules, sibling comparison cross-check with field coverage"
 
-THOROUGH_UNIVERSES = ['dev_permissions']
+THOROUGH_UNIVERSES = ['dev_permissions', 'no_std']
